@@ -31,4 +31,36 @@ PROPS = {
         trusted_base=["inline flag / unsafe pointer representation / recursive types are not modelled (harness only)"],
         assumptions=["Ty/Val universe: finite trees (no recursive message types); user Message implementers represented by RawMessage"],
     ),
+    "C12": dict(
+        lean_modules=["Enc.Props.C12"],
+        variants=V_DEFAULT, areas=["proto."], allowed_native=["Enc.Lemmas.Proto.", "Enc.Lemmas.ProtoVarint."],
+        main_theorem="Enc.Props.C12 (wire format conformance)",
+        rule="random message types x values: (1) Marshal's bytes decoded by the Lean reference decoder (written from the protobuf "
+             "encoding spec) must give the same field values; (2) legal re-encodings built by an independent wire-level "
+             "re-encoder (field order shuffled, non-minimal varints in tags/lengths/values, embedded messages split in two "
+             "occurrences, an earlier decoy occurrence of a scalar) must Unmarshal to the same values; impl vs model vs spec",
+        trusted_base=["Spec.Protobuf is the reference implementation (no protobuf library offline): written from the public spec"],
+        assumptions=["packed repeated scalars excluded (as the property says)"],
+    ),
+    "C16": dict(
+        lean_modules=["Enc.Props.C16"],
+        variants=V_DEFAULT, areas=["proto."], allowed_native=["Enc.Lemmas.Proto.", "Enc.Lemmas.ProtoVarint."],
+        main_theorem="Enc.Props.C16.marshalTo_spec",
+        rule="random message types x values x EVERY buffer length 0..Size+3 (sampled above 400 bytes in the quick tier, always "
+             "including Size-2..Size+1) with 0xEE guard bytes from len to cap: count, bytes, error class, guard bytes; "
+             "impl vs model (Enc.Model.Proto.encodeTo) vs the statement of the property",
+        trusted_base=["guard bytes observe writes past len(b); writes are not modelled byte-by-byte on the error path"],
+        assumptions=[],
+    ),
+    "C07": dict(
+        lean_modules=["Enc.Props.C07"],
+        variants=V_DEFAULT, areas=["proto."], allowed_native=["Enc.Lemmas.Proto.", "Enc.Lemmas.ProtoVarint."],
+        main_theorem="Enc.Props.C07 (totality / unknown-field skipping)",
+        rule="for random message types x values: every prefix of a valid encoding, 6 mutations, unknown fields of every wire "
+             "type (numbers up to 2^29-1, nested) inserted at every top-level boundary, Scan/Parse vs an independent wire "
+             "parser, allocation measured against K*len; plus adversarial byte strings (huge lengths, 8-13 byte varints). "
+             "All decodes run in a supervised child process (fatal errors and hangs become observables)",
+        trusted_base=["allocation measured with runtime.MemStats.TotalAlloc in the worker"],
+        assumptions=[],
+    ),
 }
